@@ -161,6 +161,15 @@ pub fn mod_n_inv(a: &U256) -> U256 {
 pub fn mod_n_from_hash(ha: &[u8]) -> U256 {
     let mut h = SM9_ONE;
     let mut z: [u64; 5] = [0; 5];
+    // Ha is the first 40 bytes of the hash output; a shorter input is read as the
+    // big-endian integer it spells (left-padded with zero bytes)
+    let mut buf = [0u8; 40];
+    if ha.len() >= 40 {
+        buf.copy_from_slice(&ha[..40]);
+    } else {
+        buf[40 - ha.len()..].copy_from_slice(ha);
+    }
+    let ha = &buf[..];
     for i in 0..5 {
         z[4 - i] = getu64(&ha[8 * i..]);
     }
